@@ -67,7 +67,7 @@ class Recorder:
         k = np.mod(k, BASE) + BASE * rng.integers(-2, 3, size=(T, A, 3))
         return k * LC
 
-    def construct(self, T, A, max_step=3, species=None):
+    def construct(self, T, A, max_step=3, species=None, like=None):
         from pymatgen.core import Element, Species
         from gemdat import Trajectory
         rng = self.rng
@@ -75,7 +75,11 @@ class Recorder:
         sp = species or [int(x) for x in rng.choice([0, 1, 2, 3, 4, 5] if rng.random() < 0.5 else [3, 4, 5, 1], size=A)]
         mk = Species if rng.random() < 0.5 else Element
         dt, temp = int(rng.integers(1, 4)), int(rng.integers(100, 900))
-        t = Trajectory(species=[mk(SP_NAMES[s]) for s in sp], coords=c / N, lattice=self.lattice,
+        objs = [mk(SP_NAMES[s]) for s in sp]
+        if like is not None:                      # same species objects and time step: can be appended to `like`
+            objs = list(like.species)
+            dt = int(round(like.time_step / 1e-15))
+        t = Trajectory(species=objs, coords=c / N, lattice=self.lattice,
                        time_step=dt * 1e-15, metadata={'temperature': temp})
         self.objs.append(t)
         self.driftref[len(self.objs) - 1] = None
@@ -405,6 +409,24 @@ def random_behaviour(b, rng, family, orientation, n_steps, acts, max_objs=6, Tma
         elif act == 'Extend':
             j = int(rng.integers(0, len(rec.objs)))
             ok = rec.extend(i, j)
+        elif act == 'ExtendProbe':
+            # every derived quantity asked, the object extended in place, every derived quantity asked again: whatever a query
+            # kept from before the extension must not be served afterwards
+            ok = not full
+            if ok:
+                j = rec.construct(int(rng.integers(2, 6)), len(t.species), max_step, species=[SP_NAMES.index(s.symbol) for s in t.species], like=t)
+                ok = j is not None and len(t) + len(rec.objs[j]) <= 24
+            if ok:
+                qs = ['cum_disp', 'dist', 'get_disp', 'get_pos']
+                for q in qs:
+                    getattr(rec, q)(i)
+                for what in ('msd', 'com', 'metrics'):
+                    rec.read_only(i, what)
+                ok = rec.extend(i, j)
+                for q in qs:
+                    getattr(rec, q)(i)
+                for what in ('msd', 'com', 'metrics'):
+                    rec.read_only(i, what)
         elif act == 'ReadOnly':
             rec.read_only(i, str(rng.choice(['msd', 'volume', 'metrics', 'len', 'structure', 'com', 'repr', 'transitions', 'rdf', 'metrics2'])))
         elif act == 'GaugePair':
